@@ -40,7 +40,8 @@ Section NoCode.
     get_esi i (bd_shards (fst (bd_push E toi oti sbn esi payload b))) = Some d.
   Proof.
     intros H. unfold bd_push. destruct (bd_completed b); [exact H|].
-    destruct (bd_alloc b); cbn [negb]; [|exact H]. rewrite Hfec. cbn [fst bd_shards].
+    destruct (bd_alloc b); cbn [negb]; [|exact H].
+    destruct (ro_e oti <? lenN_ payload); [exact H|]. rewrite Hfec. cbn [fst bd_shards].
     destruct ((esi <? bd_k b) && negb (has_esi esi (bd_shards b)) && negb false) eqn:C; [|exact H].
     apply andb_true_iff in C. destruct C as [C _]. apply andb_true_iff in C. destruct C as [_ C].
     apply negb_true_iff in C.
@@ -61,7 +62,8 @@ Section NoCode.
     bd_data b' = concat_src (N.to_nat (bd_k b)) 0 (bd_shards b') /\ bd_data b' <> None.
   Proof.
     intros Hc Hd. unfold bd_push. rewrite Hc. destruct (bd_alloc b); cbn [negb fst].
-    - rewrite Hfec, Hd. cbn [fst bd_completed bd_data bd_shards].
+    - destruct (ro_e oti <? lenN_ payload); [cbn [fst]; rewrite Hc; discriminate|].
+      rewrite Hfec, Hd. cbn [fst bd_completed bd_data bd_shards].
       match goal with |- context [count_lt (bd_k b) ?x] => set (sh := x) end.
       destruct (count_lt (bd_k b) sh =? bd_k b); [|cbn [is_some_b]; discriminate].
       intros H. split; [reflexivity|]. destruct (concat_src _ 0 sh); [discriminate|cbn in H; discriminate].
